@@ -1,6 +1,7 @@
 SPECIFICATION Spec
 CONSTANTS
   GuardReserved = TRUE
+  GuardNul = TRUE
   MaxSegs = 2
   MaxRecs = 2
   MaxPath = 4
